@@ -57,7 +57,7 @@ func (s *service) Create(ctx context.Context, record kvs.Record) (string, error)
 	if ctx.Err() != nil {
 		return "", ctx.Err()
 	}
-	if r, ok := s.recs[record.Key]; ok {
+	if r, ok := s.live(record.Key); ok {
 		return r.Version, errors.ErrExist
 	}
 	record.Version = ulidutils.NewID()
@@ -151,7 +151,7 @@ func (s *service) Delete(ctx context.Context, key string) error {
 	s.lock.Lock()
 	defer s.lock.Unlock()
 
-	if _, ok := s.recs[key]; !ok {
+	if _, ok := s.live(key); !ok {
 		return errors.ErrNotExist
 	}
 	delete(s.recs, key)
@@ -162,7 +162,7 @@ func (s *service) Delete(ctx context.Context, key string) error {
 func (s *service) WaitForVersionChange(ctx context.Context, key, ver string) error {
 	for {
 		s.lock.Lock()
-		r, ok := s.recs[key]
+		r, ok := s.live(key)
 		if !ok {
 			s.lock.Unlock()
 			return errors.ErrNotExist
@@ -208,12 +208,33 @@ func (s *service) ListKeys(ctx context.Context, pattern string) (iterable.Iterat
 		return nil, fmt.Errorf("could not compile the patter %q: %w", pattern, err)
 	}
 	res := []string{}
-	for k := range s.recs {
+	now := time.Now()
+	for k, r := range s.recs {
+		if r.ExpiresAt != nil && r.ExpiresAt.Before(now) {
+			// expired records are not listed
+			continue
+		}
 		if g.Match(k) {
 			res = append(res, k)
 		}
 	}
 	return &keysIterator{res: res}, nil
+}
+
+// live returns the record stored under the key if it has not expired. An
+// expired record is dropped (and its waiters are notified) as if it had been
+// deleted at its expiration time.
+func (s *service) live(key string) (kvs.Record, bool) {
+	r, ok := s.recs[key]
+	if !ok {
+		return kvs.Record{}, false
+	}
+	if r.ExpiresAt != nil && r.ExpiresAt.Before(time.Now()) {
+		delete(s.recs, key)
+		s.notifyWaiters(key)
+		return kvs.Record{}, false
+	}
+	return r, true
 }
 
 func (s *service) notifyWaiters(key string) {
